@@ -134,6 +134,19 @@ impl Clone for LimiterCollection {
     }
 }
 
+/// Builds an argument from input bytes.  On Unix an argument is an arbitrary
+/// byte string, so every byte reaches the command unchanged.
+#[cfg(unix)]
+fn os_string_from_bytes(bytes: &[u8]) -> OsString {
+    use std::os::unix::ffi::OsStringExt;
+    OsString::from_vec(bytes.to_vec())
+}
+
+#[cfg(not(unix))]
+fn os_string_from_bytes(bytes: &[u8]) -> OsString {
+    String::from_utf8_lossy(bytes).into_owned().into()
+}
+
 #[cfg(windows)]
 fn count_osstr_chars_for_exec(s: &OsStr) -> usize {
     use std::os::windows::ffi::OsStrExt;
@@ -586,7 +599,7 @@ where
         }
 
         Ok(Some(Argument {
-            arg: String::from_utf8_lossy(&result[..]).into_owned().into(),
+            arg: os_string_from_bytes(&result[..]),
             kind: if terminated_by_newline {
                 ArgumentKind::HardTerminated
             } else {
@@ -635,7 +648,7 @@ where
                     &buf[..]
                 };
                 break Some(Argument {
-                    arg: String::from_utf8_lossy(bytes).into_owned().into(),
+                    arg: os_string_from_bytes(bytes),
                     kind: ArgumentKind::HardTerminated,
                 });
             }
